@@ -20,7 +20,7 @@ import (
 func unwrapCase(c *ctx, sub uint64, class string) {
 	r := c.r
 	g := &gen{r: common.NewRand(sub)}
-	kind := g.r.Intn(3)
+	kind := g.intn(3)
 	d := delay.Delay{From: g.jid(), Time: g.time(false), Reason: g.opt()}
 	body := g.text()
 	name := []string{"forward.Unwrap", "carbons.Unwrap(received)", "carbons.Unwrap(sent)"}[kind]
